@@ -16,6 +16,7 @@ RULE = ('programs = every well-typed pipeline of depth 1..3 over the dual-mode o
         'a group can be delivered as a second lifetime of an index that already completed. Oracle (differential on the real '
         'code): items at the tail tap bucketed per group == items delivered by rx.from_(group items).pipe(*P) built afresh. '
         'Non-trivial = at least two groups whose items interleave.')
+DEEP_PROBES = ('group keys with equal hashes (-1/-2, 5/5+2^61-1); float states through 0.0 / -0.0 and non-dyadic floats')
 ASSUMPTIONS = ['user functions are total and pure; accumulators keep the seed type (typed grammar)',
                'first/last/mean(reduce) on an empty group are outside the property (skipped on whichever side the error shows)',
                'emission time and the order between outputs of different groups are not compared']
